@@ -414,7 +414,8 @@ func genC16(r *rand.Rand, tier string, env *Env) []Case {
 		ct := genCRSTree(r, 1+r.Intn(4))
 		ra := pick(r, ct.ra)
 		var ops []Op
-		for _, c := range [][]string{{"regex", "generate", ra.arg}, {"regex", "update", ra.arg}, {"regex", "update", "-a"}, {"regex", "generate", ra.arg + ".ra"}} {
+		for _, c := range [][]string{{"regex", "generate", ra.arg}, {"regex", "update", ra.arg}, {"regex", "update", "-a"}, {"regex", "generate", ra.arg + ".ra"},
+			{"regex", "compare", ra.arg}, {"regex", "compare", "-a"}, {"-o", "github", "regex", "compare", "-a"}} {
 			ops = append(ops, cliCmdOps(ct, c)...)
 		}
 		cases = append(cases, Case{Kind: "no-fault", Ops: ops})
@@ -635,6 +636,8 @@ func genC08(r *rand.Rand, tier string, env *Env) []Case {
 		}
 		files := treeArgs(ct.t)
 		ops := cliCmdOps(ct, []string{"regex", "update", "-a"})
+		ops = append(ops, cliCmdOps(ct, []string{"regex", "compare", "-a"})...)
+		ops = append(ops, cliCmdOps(ct, []string{"-o", "github", "regex", "compare", "-a"})...)
 		ops = append(ops, Op{"cli.formatAll", append([][]byte{[]byte("0"), []byte("LINT")}, files...)})
 		cases = append(cases, Case{Kind: "tree:update-all+format-all", Ops: ops})
 	}
@@ -1155,10 +1158,10 @@ func init() {
 	treeRule := "generated CRS checkouts (1..5 rule assembly files incl. chain offsets, include files, toolchain.yaml or none, rules files with the addressed rules and chains, regression tests, setup example) with decoys (other extensions, similar names, nested directories, files outside the root); "
 	properties["C15"] = &Property{ID: "C15", LeanMods: []string{"CrsProps.C15"}, Corr: "K10 (binary on sandbox trees, recursive snapshot path/size/sha256/mode before and after)", Workers: 8,
 		Rule: treeRule + "19-20 command lines per tree (inspecting and rewriting commands, single target / --all / --check / -o github), run from the root, with -d root, -d subdirectory, relative -d; non-trivial = every run; distinct by (tree, command, mode)", Gen: genC15}
-	properties["C16"] = &Property{ID: "C16", LeanMods: []string{"CrsProps.C16"}, Corr: "K10 (exit status, stdout, tree snapshot under single injected faults)", Workers: 8,
+	properties["C16"] = &Property{ID: "C16", LeanMods: []string{"CrsProps.C16", "CrsProps.C12Cli"}, Corr: "K10 (exit status, stdout, tree snapshot under single injected faults)", Workers: 8,
 		Rule: treeRule + "one fault of 30 classes injected into the first/middle/last assembly file (or the rules file / argument / version), every command the fault concerns; non-trivial = every run; distinct by (tree, fault, command)", Gen: genC16,
 		Assume: []string{"known finding D19: update --all / format --all are not atomic — targets of assembly files preceding the faulty one (format: any other file) are already rewritten when the run fails"}}
-	properties["C08"] = &Property{ID: "C08", LeanMods: []string{"CrsProps.C08"}, Corr: "K10 (tree after --all vs tree after the single invocations in a random order; compare verdict lines)", Workers: 8,
+	properties["C08"] = &Property{ID: "C08", LeanMods: []string{"CrsProps.C08", "CrsProps.C12Cli"}, Corr: "K10 (tree after --all vs tree after the single invocations in a random order; compare verdict lines)", Workers: 8,
 		Rule: treeRule + "update/format/compare --all against the sequence of single invocations in 2 (quick) / 6 (thorough) random orders; assembly files share stored names and definition names; non-trivial = trees with at least two assembly files; distinct by (tree, command, order)", Gen: genC08}
 	properties["C18"] = &Property{ID: "C18", LeanMods: []string{"CrsProps.C18"}, Corr: "K9 (parseRuleId vs Crs.Update.parseRuleId), K10 (generate ARG vs generate -, nested roots)", Workers: 8,
 		Rule: "argument strings around the grammar NNNNNN[-chainK][.ra] (other digit counts, K in 0..300 and beyond uint8/uint64, extra suffixes, leading zeros, non-ASCII digits); trees with files for accepted and rejected spellings; nested CRS roots with start directories at depth 0..4 below or beside a root, absolute and relative -d, and no -d; non-trivial = every case; distinct by argument / start directory", Gen: genC18,
